@@ -26,6 +26,7 @@ ASSUMPTIONS = ["samples of the last interval's right transition and the final sa
                "the reading pinned by the shipped doctests"]
 ANCHORS = {"funfit.py": [(36, 38), (72, 74), (109, 111), (150, 154), (192, 196)],
            "rfa.py": [(270, 280), (428, 460), (481, 500), (648, 669), (817, 851)]}
+FORMS_HARNESSES = "all"
 EXPLANATION = "agreement with an independent reference model on every element of a bounded lattice"
 
 
